@@ -444,26 +444,8 @@ func genDkgLib(rng *hx.Rng, tier string, w *hx.Writer, prop string) error {
 				return d, desc, true
 			}}
 		}},
-		{"crafted-commitments", func(s *dkgSess, b int) dkgHooks {
-			// consistent deals of a polynomial whose constant term is sum_{k>=1} c_k x^k at the victim's
-			// abscissa (the victim's public-share evaluation ends by adding a point to itself); in half of
-			// the runs the victim is handed the share 0 instead of the true one
-			hs := s.honest()
-			victim := hs[s.rng.Intn(len(hs))]
-			s.coeffs[b] = craftFor(randCoeffs(s.rng, s.t, BnQ), victim, BnQ)
-			zero := s.rng.Bool()
-			return dkgHooks{deal: func(i, j int) (*dkg.Deal, *edealDesc, bool) {
-				if j != b {
-					return nil, nil, true
-				}
-				p := s.dealing(b).honestPlain(i)
-				if i == victim && zero {
-					p.share = big.NewInt(0)
-				}
-				d, desc := s.byzDeal(b, i, p)
-				return d, desc, true
-			}}
-		}},
+		{"crafted-commitments-true-share", func(s *dkgSess, b int) dkgHooks { return craftedCommitments(s, b, false) }},
+		{"crafted-commitments-zero-share", func(s *dkgSess, b int) dkgHooks { return craftedCommitments(s, b, true) }},
 		{"equivocation-honest-sids", func(s *dkgSess, b int) dkgHooks { return equivocate(s, b, false) }},
 		{"equivocation-crossed-sids", func(s *dkgSess, b int) dkgHooks { return equivocate(s, b, true) }},
 		{"wrong-threshold", func(s *dkgSess, b int) dkgHooks {
@@ -559,6 +541,26 @@ func genDkgLib(rng *hx.Rng, tier string, w *hx.Writer, prop string) error {
 		}
 	}
 	return nil
+}
+
+// consistent deals of a polynomial whose constant term is sum_{k>=1} c_k x^k at the victim's abscissa
+// (the victim's public-share evaluation ends by adding a point to itself); with zero set the victim is
+// handed the share 0 instead of the true one
+func craftedCommitments(s *dkgSess, b int, zero bool) dkgHooks {
+	hs := s.honest()
+	victim := hs[s.rng.Intn(len(hs))]
+	s.coeffs[b] = craftFor(randCoeffs(s.rng, s.t, BnQ), victim, BnQ)
+	return dkgHooks{deal: func(i, j int) (*dkg.Deal, *edealDesc, bool) {
+		if j != b {
+			return nil, nil, true
+		}
+		p := s.dealing(b).honestPlain(i)
+		if i == victim && zero {
+			p.share = big.NewInt(0)
+		}
+		d, desc := s.byzDeal(b, i, p)
+		return d, desc, true
+	}}
 }
 
 // Byzantine dealer b: a valid threshold T = t, but commitments of a CONSTANT polynomial (one
